@@ -27,6 +27,7 @@ func init() {
 		ndPkg + ".Buf":     ndBuf,
 		ndPkg + ".Atom":    ndAtom,
 		ndPkg + ".Enum":    ndEnum,
+		ndPkg + ".EnumPad": ndEnumPad,
 		ndPkg + ".Assume":  ndAssume,
 		ndPkg + ".Assert":  ndAssert,
 		ndPkg + ".Known":   ndKnown,
@@ -367,6 +368,7 @@ func init() {
 		},
 	}
 	registerRegexIntrinsics()
+	registerL1Intrinsics()
 }
 
 func (in *Interp) matcherDict() map[*ahocorasick.Matcher][]string {
@@ -519,7 +521,15 @@ func ndAtom(in *Interp, fn *ssa.Function, a []Value) Value {
 	}
 	return &Str{kind: sAtom, atom: inp.T, max: -1}
 }
+func ndEnumPad(in *Interp, fn *ssa.Function, a []Value) Value {
+	return ndEnumImpl(in, a, true)
+}
+
 func ndEnum(in *Interp, fn *ssa.Function, a []Value) Value {
+	return ndEnumImpl(in, a, false)
+}
+
+func ndEnumImpl(in *Interp, a []Value, pad bool) Value {
 	name := in.nameArg(a[0])
 	var alts []string
 	for _, e := range in.sliceElems(a[1]) {
@@ -528,6 +538,12 @@ func ndEnum(in *Interp, fn *ssa.Function, a []Value) Value {
 			in.fail("nd.Enum alternatives must be constants")
 		}
 		alts = append(alts, s.conc)
+	}
+	if pad {
+		m := maxLen(alts)
+		for i := range alts {
+			alts[i] += strings.Repeat(" ", m-len(alts[i]))
+		}
 	}
 	if len(alts) == 0 {
 		in.fail("nd.Enum without alternatives")
